@@ -908,3 +908,181 @@ Ltac cir_step_simpl :=
        range_items fmap list_fmap imap app task_field pick_taken is_some mk_event pstr pstamp keys_within forallb mk_task str_field time_field bool_field
        cs_clock cs_ids cs_uuids cs_load cs_fkind cs_sha cs_mtime cs_git cs_writes cs_out
        with_clock with_ids with_uuids with_write with_out].
+
+(** * Fast symbolic execution for the bridge proofs
+    [cexec_stmt_body] is the body of [cexec_stmt] with the recursive calls replaced by the constants,
+    so that one statement can be unfolded ([change], by conversion) and normalised with [lazy] without
+    ever unfolding [cexec_block] / [cexec_stmt] themselves: blocks stay folded and are entered one
+    statement at a time. *)
+Definition cexec_stmt_body (call : string -> list cval -> cstate -> option (cval * cstate)) (ρ : cenv) (σ : cstate) (s : cstmt) : coutcome :=
+    match s with
+    | CSSkip => ONormal ρ σ
+    | CSDefine vs e =>
+        match ceval call ρ σ e with
+        | Some (x, σ1) =>
+            match vs, x with
+            | [v], _ => match cassign v x ρ with Some ρ' => ONormal ρ' σ1 | None => OStuck end
+            | _, VTuple xs => match cassign_all vs xs ρ with Some ρ' => ONormal ρ' σ1 | None => OStuck end
+            | _, _ => OStuck
+            end
+        | None => OStuck
+        end
+    | CSVar v ty => match zero_value ty with Some x => ONormal (cbind v x ρ) σ | None => OStuck end
+    | CSLookup2 v ok m k =>
+        match ceval call ρ σ m with
+        | Some (mv, σ1) =>
+            match ceval call ρ σ1 k with
+            | Some (VStr s, σ2) =>
+                match clookup2 mv s with
+                | Some (x, b) => match cassign_all [v; ok] [x; VBool b] ρ with
+                                 | Some ρ' => ONormal ρ' σ2 | None => OStuck end
+                | None => OStuck
+                end
+            | _ => OStuck
+            end
+        | None => OStuck
+        end
+    | CSSetIndex m k e =>
+        match lookup m ρ, ceval call ρ σ k with
+        | Some (VMap l), Some (VStr s, σ1) =>
+            match ceval call ρ σ1 e with
+            | Some (x, σ2) => match cupdate m (VMap (minsert s x l)) ρ with
+                              | Some ρ' => ONormal ρ' σ2 | None => OStuck end
+            | None => OStuck
+            end
+        | _, _ => OStuck
+        end
+    | CSSetField v f e =>
+        match lookup v ρ, ceval call ρ σ e with
+        | Some (VStruct ty fs), Some (x, σ1) =>
+            match fupdate f x fs with
+            | Some fs' => match cupdate v (VStruct ty fs') ρ with Some ρ' => ONormal ρ' σ1 | None => OStuck end
+            | None => OStuck
+            end
+        | _, _ => OStuck
+        end
+    | CSDelete m k =>
+        match lookup m ρ, ceval call ρ σ k with
+        | Some (VMap l), Some (VStr s, σ1) =>
+            match cupdate m (VMap (mdelete s l)) ρ with Some ρ' => ONormal ρ' σ1 | None => OStuck end
+        | _, _ => OStuck
+        end
+    | CSGraphStoreTask g k e =>
+        match get_graph ρ g, ceval call ρ σ k with
+        | Some gr, Some (VStr s, σ1) =>
+            match ceval call ρ σ1 e with
+            | Some (VTask t, σ2) =>
+                match cupdate g (VGraph (Graph (<[s := t]> (g_tasks gr)) (g_deps gr) (g_tombs gr))) ρ with
+                | Some ρ' => ONormal ρ' σ2 | None => OStuck end
+            | _ => OStuck
+            end
+        | _, _ => OStuck
+        end
+    | CSDepEnsure g from =>
+        match get_graph ρ g, ceval call ρ σ from with
+        | Some _, Some (VStr _, σ1) => ONormal ρ σ1
+        | _, _ => OStuck
+        end
+    | CSDepInsert g from to =>
+        match get_graph ρ g, ceval call ρ σ from with
+        | Some gr, Some (VStr a, σ1) =>
+            match ceval call ρ σ1 to with
+            | Some (VStr b, σ2) =>
+                match cupdate g (VGraph (Graph (g_tasks gr) ({[ (a, b) ]} ∪ g_deps gr) (g_tombs gr))) ρ with
+                | Some ρ' => ONormal ρ' σ2 | None => OStuck end
+            | _ => OStuck
+            end
+        | _, _ => OStuck
+        end
+    | CSDepDelete g from to =>
+        match get_graph ρ g, ceval call ρ σ from with
+        | Some gr, Some (VStr a, σ1) =>
+            match ceval call ρ σ1 to with
+            | Some (VStr b, σ2) =>
+                match cupdate g (VGraph (Graph (g_tasks gr) (g_deps gr ∖ {[ (a, b) ]}) (g_tombs gr))) ρ with
+                | Some ρ' => ONormal ρ' σ2 | None => OStuck end
+            | _ => OStuck
+            end
+        | _, _ => OStuck
+        end
+    | CSIf init c th el =>
+        match cexec_stmt call ρ σ init with
+        | ONormal ρ1 σ1 =>
+            match ceval call ρ1 σ1 c with
+            | Some (VBool b, σ2) =>
+                match (if b then cexec_block call ρ1 σ2 th else cexec_block call ρ1 σ2 el) with
+                | ONormal ρ2 σ3 => ONormal (crestore (List.length ρ) ρ2) σ3
+                | OReturn vs ρ2 σ3 => OReturn vs (crestore (List.length ρ) ρ2) σ3
+                | OContinue ρ2 σ3 => OContinue (crestore (List.length ρ) ρ2) σ3
+                | OStuck => OStuck
+                end
+            | _ => OStuck
+            end
+        | _ => OStuck
+        end
+    | CSRange k v e body =>
+        match ceval call ρ σ e with
+        | Some (x, σ1) =>
+            match range_items x with
+            | Some items => cfor_each (λ ρ' σ', cexec_block call ρ' σ' body) k v ρ σ1 items
+            | None => OStuck
+            end
+        | None => OStuck
+        end
+    | CSExpr e => match ceval call ρ σ e with Some (_, σ1) => ONormal ρ σ1 | None => OStuck end
+    | CSLock dst mode body =>
+        if negb (name_eqb mode "syscall.LOCK_EX") then OStuck else
+        match cexec_block call ρ σ body with
+        | OReturn [r] ρ1 σ1 =>
+            let ρ2 := crestore (List.length ρ) ρ1 in
+            match dst with
+            | None => OReturn [r] ρ2 σ1
+            | Some vb => match cassign vb r ρ2 with Some ρ3 => ONormal ρ3 σ1 | None => OStuck end
+            end
+        | _ => OStuck
+        end
+    | CSReturn es =>
+        match ceval_args call ρ σ es with
+        | Some ([VTuple vs], σ1) => OReturn vs ρ σ1       (* return f(), f multi-valued *)
+        | Some (vs, σ1) => OReturn vs ρ σ1
+        | None => OStuck
+        end
+    | CSContinue => OContinue ρ σ
+    | CSUnknown _ => OStuck
+    end.
+
+Lemma cexec_stmt_body_eq call ρ σ s : cexec_stmt call ρ σ s = cexec_stmt_body call ρ σ s.
+Proof. destruct s; reflexivity. Qed.
+
+Ltac cir_lazy :=
+  lazy beta iota zeta delta
+      [cexec_stmt_body cblk cxs cfs ceval ceval_args ceval_fields do_call is_prim existsb
+       cbind_params cbind cassign cassign_all cupdate crestore lookup name_eqb ascii_name_eqb bit_eqb
+       andb orb negb cf_params cf_body fst snd pack get_graph zero_value
+       List.length drop Nat.sub
+       prim_call ceq clen clookup1 clookup2 massoc mdelete minsert fassoc fupdate as_list as_events
+       range_items fmap list_fmap imap app task_field pick_taken is_some mk_event pstr pstamp keys_within forallb
+       mk_task str_field time_field bool_field
+       cs_clock cs_ids cs_uuids cs_load cs_fkind cs_sha cs_mtime cs_git cs_writes cs_out
+       with_clock with_ids with_uuids with_write with_out].
+
+(** one step at the point of execution: enter the next statement of the block being executed *)
+Ltac cir_step_block :=
+  lazymatch goal with
+  | |- context C [cexec_block ?call ?ρ ?σ (CBCons ?s ?r)] =>
+      let t := constr:(match cexec_stmt_body call ρ σ s with ONormal ρ1 σ1 => cexec_block call ρ1 σ1 r | o => o end) in
+      let G := context C [t] in change G; cir_lazy
+  | |- context C [cexec_block ?call ?ρ ?σ CBNil] =>
+      let G := context C [ONormal ρ σ] in change G; cir_lazy
+  | |- context C [cexec_stmt ?call ?ρ ?σ ?s] =>
+      let G := context C [cexec_stmt_body call ρ σ s] in change G; cir_lazy
+  | |- context C [@cfor_each ?f ?k ?v ?ρ ?σ ((?x, ?y) :: ?r)] =>
+      let t := constr:(match f (cbind v y (cbind k x ρ)) σ with
+                       | ONormal ρ' σ' | OContinue ρ' σ' => cfor_each f k v (crestore (List.length ρ) ρ') σ' r
+                       | OReturn vs ρ' σ' => OReturn vs (crestore (List.length ρ) ρ') σ'
+                       | OStuck => OStuck
+                       end) in
+      let G := context C [t] in change G; cir_lazy
+  | |- context C [@cfor_each ?f ?k ?v ?ρ ?σ []] =>
+      let G := context C [ONormal ρ σ] in change G; cir_lazy
+  end.
